@@ -202,4 +202,11 @@ OnSubmit(s, op) ==
     ELSE LET idx == Len(s.log) + 1
          IN R([s EXCEPT !.log = Append(s.log, [i |-> idx, t |-> s.term, c |-> op]),
                         !.pend = { x \in s.pend : x[1] # idx } \cup {<<idx, op>>}], <<>>, <<>>)
+
+\* one recorded step (RaftTrace vocabulary) that runs code of node self
+OnStep(s, self, st) ==
+    CASE st.a = "T" -> OnTimeout(s, self)
+      [] st.a = "H" -> OnHeartbeat(s, self)
+      [] st.a = "S" -> OnSubmit(s, st.op)
+      [] st.a = "D" -> OnMsg(s, self, st.m)
 =============================================================================
